@@ -7,12 +7,13 @@ one() {
   d=$1; id=$(basename $d)
   case $id in
     neg-1*) checks="C08 C15 C14";; neg-2*) checks="C12 C06";; neg-3*) checks="C01 C05 C07";;
+    neg-r*) checks="C01 C02 C03 C04 C05 C06 C07 C08 C09 C10 C11 C12 C13 C14 C15 C16 C17 C18 C19 C20";;
     *) checks=${id:0:3};;
   esac
-  /verif/tools_try_seed.sh $d/patch.diff $id $checks > /tmp/seedrun/logs/$id.log 2>&1
+  ${VERIF_HOME:-/verif}/tools_try_seed.sh $d/patch.diff $id $checks > /tmp/seedrun/logs/$id.log 2>&1
 }
 export -f one
-ls -d /verif/seeded/*/ | sed 's#/$##' | xargs -P $PAR -I{} bash -c 'one {}'
+ls -d ${VERIF_HOME:-/verif}/seeded/*/ | sed 's#/$##' | xargs -P $PAR -I{} bash -c 'one {}'
 for f in /tmp/seedrun/logs/*.log; do
   id=$(basename $f .log)
   grep "RESULT $id C" $f | sed -E 's/RESULT ([^ ]+) (C[0-9]+) :: (OK|VIOLATION|INCONCLUSIVE).*/\1 \2 \3/'
